@@ -70,6 +70,78 @@ End Labels.
 (* label strings as byte lists *)
 Definition s_ (l : list Z) := l.
 
+(* ---- the verification equation, generic in the group: instantiated with BLS12-381 G1 (run against the
+   real verifier) and with the additive group of exponents (Protocol/VerifierComplete.v) ---- *)
+Record group_ops (G : Type) := mkGroupOps {
+  gr_id : G; gr_add : G -> G -> G; gr_neg : G -> G; gr_mul : G -> Z -> G; gr_is_id : G -> bool }.
+Arguments gr_id {G}. Arguments gr_add {G}. Arguments gr_neg {G}. Arguments gr_mul {G}. Arguments gr_is_id {G}.
+Definition gr_msm {G} (ops : group_ops G) (l : list (G * Z)) : G :=
+  fold_left (fun acc '(P, s) => gr_add ops acc (gr_mul ops P s)) l (gr_id ops).
+Definition g1_group : group_ops g1 := mkGroupOps g1 g1_id g1_add g1_neg g1_mul g1_is_id.
+
+Definition verify_eq {G} (ops : group_ops G) (vkp pp : list G) (g : G) (chs ev pis : list Fr) (pi_idx : list Z)
+                     (vk_n : Z) (x_secret : Fr) : verdict * list Fr * G :=
+    let nthp := fun (l : list G) (i : nat) => nth i l (gr_id ops) in
+    let q_m := 0%nat in let q_l := 1%nat in let q_r := 2%nat in let q_o := 3%nat in let q_f := 4%nat in
+    let q_c := 5%nat in let q_arith := 6%nat in let q_logic := 7%nat in let q_range := 8%nat in
+    let q_fixed := 9%nat in let q_var := 10%nat in let s1 := 11%nat in let s2 := 12%nat in let s3 := 13%nat in let s4 := 14%nat in
+    let a_e := nths ev 0%nat in let b_e := nths ev 1%nat in let c_e := nths ev 2%nat in let d_e := nths ev 3%nat in
+    let aw_e := nths ev 4%nat in let bw_e := nths ev 5%nat in let dw_e := nths ev 6%nat in
+    let qa_e := nths ev 7%nat in let qc_e := nths ev 8%nat in let ql_e := nths ev 9%nat in let qr_e := nths ev 10%nat in
+    let s1_e := nths ev 11%nat in let s2_e := nths ev 12%nat in let s3_e := nths ev 13%nat in let z_e := nths ev 14%nat in
+    let beta := nths chs 0%nat in let gamma := nths chs 1%nat in let alpha := nths chs 2%nat in
+    let k_range := nths chs 3%nat in let k_logic := nths chs 4%nat in let k_fixed := nths chs 5%nat in let k_var := nths chs 6%nat in
+    let z := nths chs 7%nat in let v := nths chs 8%nat in let vw := nths chs 9%nat in let u := nths chs 10%nat in
+    (* ---- scalars ---- *)
+    let k := domain_log (Z.to_nat vk_n) in
+    let nF := F (2 ^ Z.of_nat k) in
+    let omega := domain_gen k in
+    let z_n := fpow z (N.of_nat (Nat.pow 2 k)) in
+    let z_h := z_n - 1 in
+    let den0 := nF * (z - 1) in
+    let nz := filter (fun '(_, e) => negb (feqb e 0)) (combine pi_idx pis) in
+    let dens := map (fun '(i, _) => fpow (finv omega) (Z.to_N i) * z - 1) nz in
+    if feqb den0 0 || existsb (fun d => feqb d 0) dens then (Reject, chs, gr_id ops) else
+    let l1 := z_h * finv den0 in
+    let pi_eval := fsum_list (map (fun '((_, e), d) => finv d * e) (combine nz dens)) * z_h * finv nF in
+    let r0 := pi_eval - l1 * (alpha * alpha)
+              - alpha * (a_e + beta * s1_e + gamma) * (b_e + beta * s2_e + gamma)
+                      * (c_e + beta * s3_e + gamma) * (d_e + gamma) * z_e in
+    let vp := powers_from v v 11%nat in                           (* v^1 .. v^11 *)
+    let c11 := vw * u in let c12 := c11 * vw in let c13 := c12 * vw in
+    let e_evals := [a_e; b_e; c_e; d_e; s1_e; s2_e; s3_e; qa_e; qc_e; ql_e; qr_e; aw_e; bw_e; dw_e] in
+    let e_coeffs := vp ++ [c11; c12; c13] in
+    let e_scalar := fsum_list (map (fun '(e, c) => e * c) (combine e_evals e_coeffs)) - r0 + u * z_e in
+    (* widget scalars through the row formulas of Gates/Gate.v on the evaluations *)
+    let gsel := mkGate 0 ql_e qr_e 0 0 qc_e 0 1 1 1 1 O O O O in
+    let w := mkWires a_e b_e c_e d_e in
+    let nx := mkWires aw_e bw_e 0 dw_e in
+    let K1 := F 7 in let K2 := F 13 in let K3 := F 17 in
+    let perm1 := (a_e + beta * z + gamma) * (b_e + beta * K1 * z + gamma) * (c_e + beta * K2 * z + gamma)
+                 * ((d_e + beta * K3 * z + gamma) * alpha) + l1 * (alpha * alpha) + u in
+    let perm2 := - ((a_e + beta * s1_e + gamma) * (b_e + beta * s2_e + gamma) * (c_e + beta * s3_e + gamma)
+                    * (beta * z_e * alpha)) in
+    let nzh := - z_h in
+    let f0 := nths vp 0%nat + c11 in let f1 := nths vp 1%nat + c12 in let f3 := nths vp 3%nat + c13 in
+    let terms : list (G * Fr) :=
+      [ (nthp vkp q_m, a_e * b_e * qa_e); (nthp vkp q_l, a_e * qa_e); (nthp vkp q_r, b_e * qa_e);
+        (nthp vkp q_o, c_e * qa_e); (nthp vkp q_f, d_e * qa_e); (nthp vkp q_c, qa_e);
+        (nthp vkp q_range, t_range gsel w nx k_range);
+        (nthp vkp q_logic, t_logic gsel w nx k_logic);
+        (nthp vkp q_fixed, t_fixed gsel w nx k_fixed);
+        (nthp vkp q_var, t_var gsel w nx k_var);
+        (nthp pp 4%nat, perm1); (nthp vkp s4, perm2);
+        (nthp pp 5%nat, nzh); (nthp pp 6%nat, z_n * nzh); (nthp pp 7%nat, z_n * z_n * nzh); (nthp pp 8%nat, z_n * z_n * nzh * z_n);
+        (nthp pp 0%nat, f0); (nthp pp 1%nat, f1); (nthp pp 2%nat, nths vp 2%nat); (nthp pp 3%nat, f3);
+        (nthp vkp s1, nths vp 4%nat); (nthp vkp s2, nths vp 5%nat); (nthp vkp s3, nths vp 6%nat);
+        (nthp vkp q_arith, nths vp 7%nat); (nthp vkp q_c, nths vp 8%nat); (nthp vkp q_l, nths vp 9%nat); (nthp vkp q_r, nths vp 10%nat);
+        (g, - e_scalar); (nthp pp 9%nat, z); (nthp pp 10%nat, u * z * omega) ] in
+    let right := gr_msm ops (map (fun '(P, s) => (P, val s)) terms) in
+    let left := gr_neg ops (gr_add ops (nthp pp 9%nat) (gr_mul ops (nthp pp 10%nat) (val u))) in
+    let disc := gr_add ops (gr_mul ops left (val x_secret)) right in
+    if gr_is_id ops disc then (Accept, chs, disc) else (Reject, chs, disc)
+.
+
 (* also returns the discrepancy point  x*left + right  of the final check (identity iff accepted) *)
 Definition verify_v23_gen (v3 : bool) (x_secret : Fr) (vbytes pbytes : list Z) (pis : list Fr)
                       (labels : list (list Z)) : verdict * list Fr * g1 :=
@@ -163,54 +235,7 @@ Definition verify_v23_gen (v3 : bool) (x_secret : Fr) (vbytes pbytes : list Z) (
     let t := app_point (lab 54%nat) (nthb praw 10%nat) t in
     let '(u, t) := chal (lab 55%nat) t in
     let chs := [beta; gamma; alpha; k_range; k_logic; k_fixed; k_var; z; v; vw; u] in
-    (* ---- scalars ---- *)
-    let k := domain_log (Z.to_nat vk_n) in
-    let nF := F (2 ^ Z.of_nat k) in
-    let omega := domain_gen k in
-    let z_n := fpow z (N.of_nat (Nat.pow 2 k)) in
-    let z_h := z_n - 1 in
-    let den0 := nF * (z - 1) in
-    let nz := filter (fun '(_, e) => negb (feqb e 0)) (combine pi_idx pis) in
-    let dens := map (fun '(i, _) => fpow (finv omega) (Z.to_N i) * z - 1) nz in
-    if feqb den0 0 || existsb (fun d => feqb d 0) dens then (Reject, chs, g1_id) else
-    let l1 := z_h * finv den0 in
-    let pi_eval := fsum_list (map (fun '((_, e), d) => finv d * e) (combine nz dens)) * z_h * finv nF in
-    let r0 := pi_eval - l1 * (alpha * alpha)
-              - alpha * (a_e + beta * s1_e + gamma) * (b_e + beta * s2_e + gamma)
-                      * (c_e + beta * s3_e + gamma) * (d_e + gamma) * z_e in
-    let vp := powers_from v v 11%nat in                           (* v^1 .. v^11 *)
-    let c11 := vw * u in let c12 := c11 * vw in let c13 := c12 * vw in
-    let e_evals := [a_e; b_e; c_e; d_e; s1_e; s2_e; s3_e; qa_e; qc_e; ql_e; qr_e; aw_e; bw_e; dw_e] in
-    let e_coeffs := vp ++ [c11; c12; c13] in
-    let e_scalar := fsum_list (map (fun '(e, c) => e * c) (combine e_evals e_coeffs)) - r0 + u * z_e in
-    (* widget scalars through the row formulas of Gates/Gate.v on the evaluations *)
-    let gsel := mkGate 0 ql_e qr_e 0 0 qc_e 0 1 1 1 1 O O O O in
-    let w := mkWires a_e b_e c_e d_e in
-    let nx := mkWires aw_e bw_e 0 dw_e in
-    let K1 := F 7 in let K2 := F 13 in let K3 := F 17 in
-    let perm1 := (a_e + beta * z + gamma) * (b_e + beta * K1 * z + gamma) * (c_e + beta * K2 * z + gamma)
-                 * ((d_e + beta * K3 * z + gamma) * alpha) + l1 * (alpha * alpha) + u in
-    let perm2 := - ((a_e + beta * s1_e + gamma) * (b_e + beta * s2_e + gamma) * (c_e + beta * s3_e + gamma)
-                    * (beta * z_e * alpha)) in
-    let nzh := - z_h in
-    let f0 := nths vp 0%nat + c11 in let f1 := nths vp 1%nat + c12 in let f3 := nths vp 3%nat + c13 in
-    let terms : list (g1 * Fr) :=
-      [ (nthp vkp q_m, a_e * b_e * qa_e); (nthp vkp q_l, a_e * qa_e); (nthp vkp q_r, b_e * qa_e);
-        (nthp vkp q_o, c_e * qa_e); (nthp vkp q_f, d_e * qa_e); (nthp vkp q_c, qa_e);
-        (nthp vkp q_range, t_range gsel w nx k_range);
-        (nthp vkp q_logic, t_logic gsel w nx k_logic);
-        (nthp vkp q_fixed, t_fixed gsel w nx k_fixed);
-        (nthp vkp q_var, t_var gsel w nx k_var);
-        (nthp pp 4%nat, perm1); (nthp vkp s4, perm2);
-        (nthp pp 5%nat, nzh); (nthp pp 6%nat, z_n * nzh); (nthp pp 7%nat, z_n * z_n * nzh); (nthp pp 8%nat, z_n * z_n * nzh * z_n);
-        (nthp pp 0%nat, f0); (nthp pp 1%nat, f1); (nthp pp 2%nat, nths vp 2%nat); (nthp pp 3%nat, f3);
-        (nthp vkp s1, nths vp 4%nat); (nthp vkp s2, nths vp 5%nat); (nthp vkp s3, nths vp 6%nat);
-        (nthp vkp q_arith, nths vp 7%nat); (nthp vkp q_c, nths vp 8%nat); (nthp vkp q_l, nths vp 9%nat); (nthp vkp q_r, nths vp 10%nat);
-        (g, - e_scalar); (nthp pp 9%nat, z); (nthp pp 10%nat, u * z * omega) ] in
-    let right := g1_msm (map (fun '(P, s) => (P, val s)) terms) in
-    let left := g1_neg (g1_add (nthp pp 9%nat) (g1_mul (nthp pp 10%nat) (val u))) in
-    let disc := g1_add (g1_mul left (val x_secret)) right in
-    if g1_is_id disc then (Accept, chs, disc) else (Reject, chs, disc)
+    verify_eq g1_group vkp pp g chs ev pis pi_idx vk_n x_secret
   | _, _, _, _ => (Malformed, [], g1_id)
   end.
 
